@@ -588,8 +588,8 @@ Definition msg_remove_receiver (s : state) (m : handle) (key : handle) : state *
 (* ---------------------------------------------------------------------------------------- *)
 
 (* SignalEnum.setMaxIndex over the listed values *)
-Definition max_index (s : state) (l : list handle) : Z :=
-  foldr (λ v acc, match evals s !! v with Some V => Z.max (v_index V) acc | None => acc end) 0 l.
+Definition max_index (vs : gmap handle eval_rec) (l : list handle) : Z :=
+  foldr (λ v acc, match vs !! v with Some V => Z.max (v_index V) acc | None => acc end) 0 l.
 
 (* SignalEnum.verifyValueIndex; [fits] is the layout oracle: can every referencing signal that
    sits in a message / multiplexer grow to the size the new index needs (geometry: C01/C07) *)
@@ -642,7 +642,7 @@ Definition enum_remove_value (s : state) (e : handle) (key : handle) : state * r
                                     <| e_valueNames := delete (v_name V) (e_valueNames E) |>
                                     <| e_valueIdx := delete (v_index V) (e_valueIdx E) |>
                                     <| e_maxIndex := if decide (v_index V = e_maxIndex E)
-                                                     then max_index s1 (elements vals) else e_maxIndex E |>]>
+                                                     then max_index (evals s1) (elements vals) else e_maxIndex E |>]>
                                (enums s) |>)
       end
     else err s NotFound WRemoveEntity
@@ -683,7 +683,7 @@ Definition eval_update_name (s : state) (v : handle) (new : name) : state * resu
 (* SignalEnum.modifyValueIndex, registry part: the max index after the update; the other values
    keep their index *)
 Definition modify_max_index (s : state) (E : enum_rec) (v : handle) (new : Z) : Z :=
-  Z.max new (max_index s (elements (e_values E ∖ {[v]}))).
+  Z.max new (max_index (evals s) (elements (e_values E ∖ {[v]}))).
 
 (* SignalEnumValue.UpdateIndex *)
 Definition eval_update_index (s : state) (v : handle) (new : Z) (fits : bool) : state * result :=
